@@ -1029,23 +1029,5 @@ theorem split_dump : dumpOf (processAll R' {} plug) o = dumpOf (processAll R {} 
   decide +kernel
 end Ex4
 
-/-- `IncludeEqInlineAugments` on `Ex4`, with its hypotheses shown to hold (`Ex4.isSplit`,
-`Ex4.noLeftover`, no deviation statement) and the conclusion kernel-evaluated. -/
-theorem include_eq_inline_augments_example :
-    IsSplitOf Ex4.sp Ex4.R Ex4.R' Ex.plug Ex.plug ∧ (∀ x ∈ Ex4.R.mods, x.stmt.all "deviation" = []) ∧
-    Lemmas.IncludeAugOrder.NoLeftover Ex4.R {} Ex.plug ∧ IncludeEqInlineAugments Ex4.sp Ex4.R Ex4.R' {} Ex.plug Ex.plug := by
-  refine ⟨Ex4.isSplit, ?_, Ex4.noLeftover, fun _ _ _ => ⟨Ex4.split_clean, Ex4.split_dump⟩⟩
-  intro x hx
-  rcases Ex4.mem_R hx with rfl | rfl | rfl <;> rfl
-
--- the grafted nodes in the split module's tree: `y` below `keep` (from `ma`), `z` below it (from `mb`)
-open Goyang.Lemmas.IncludeAugK in
-example : ((processAll Ex4.R' {} Ex.plug).forest.tree? 2).map
-      (fun t => t.dir.map fun c => (c.name, c.dir.map fun g => (g.name, g.dir.map (·.name)))) =
-    some [("ch", [("x", [])]), ("keep", [("k", []), ("y", ["z"])])] := by
-  rw [processAll_forest_K Ex4.R' {} Ex.plug (by decide +kernel) (by decide +kernel)]; decide +kernel
-
-/-- The hypotheses of `include_augment_loop_order` / `include_augment_loop_clean_iff` hold of `Ex4`. -/
-example : Lemmas.Fuel.LoadedShape Ex4.R' ∧ Lemmas.Bridge.AugPosDistinct Ex4.R' := by decide +kernel
 
 end Goyang.Props.C13Include
